@@ -10,6 +10,8 @@ wt = f'/tmp/seed/{prop}'
 out = f'/tmp/seed/out_{prop}' if wave == '1' else f'/tmp/seed/out{wave}_{prop}'
 if wave == '3':                                      # wave 3: own directory tree /tmp/seed3, stored as <PROP>_<k+4>
     wt, out = f'/tmp/seed3/{prop}', f'/tmp/seed3/out_{prop}'
+if wave == '4':                                      # wave 4: /tmp/seed4, stored as <PROP>_<k+6>
+    wt, out = f'/tmp/seed4/{prop}', f'/tmp/seed4/out_{prop}'
 sid = f'{prop}_{k}' if wave == '1' else f'{prop}_{int(k) + 2 * (int(wave) - 1)}'
 def sh(cmd, **kw):
     p = subprocess.run(cmd, shell=True, stdout=subprocess.PIPE, stderr=subprocess.STDOUT, text=True, **kw)
